@@ -41,6 +41,32 @@ PROPS = {
         "not_decided": ["inside/has/precedes/follows, stopBy, field (closures + tree-sitter cursors)"],
         "assumptions": [],
     },
+    "C06": {
+        "units": [("replacer", r"replace_by|make_edit|get_replaced_range|deref|get_node"), ("source", r"accept_edit"), ("fixer", r"get_replaced_range")],
+        "kani": [],
+        "decided": ["NodeMatch::replace_by: the edit covers exactly the matched node's extent",
+                    "NodeMatch::make_edit: (position, position+deleted_length) == the replacer's range, text == the replacer's text",
+                    "default replaced range = node start .. start + matched prefix length (<= node end)",
+                    "Fixer range: default range without expansion; with expansion start <= node start and end >= node end",
+                    "String::accept_edit: result == old[..p] ++ inserted ++ old[p+d..] (every byte outside the range preserved)"],
+        "not_decided": ["UTF-8 validity / char boundaries of node ranges (tree-sitter), expand_start/expand_end (closures)", "rewriters (transform/rewrite.rs), interactive apply_rewrite"],
+        "assumptions": ["node ranges lie on char boundaries and inside the document (T-node)"],
+    },
+    "C08": {
+        "units": ["replacer", ("fixer", r"get_replaced_range|generate_replacement")],
+        "kani": [],
+        "decided": ["trait Replacer: get_replaced_range == spec_range for every impl in core (str, Root, &T) and for config::Fixer; a reference to a replacer has the replacer's range and text (forwarding)",
+                    "NodeMatch::make_edit builds THE edit from that range and text"],
+        "not_decided": ["the CLI / sg test / LSP processes themselves; lsp/utils.rs from_node_match (uses replace_by: node range, see DESIGN F8)"],
+        "assumptions": [],
+    },
+    "C12": {
+        "units": [("fixer", r"parse|with_transform|from_str")],
+        "kani": [],
+        "decided": ["Fixer::parse (string and object form): every key of `transform` is a Transformed slot of the fix template"],
+        "not_decided": ["check_var_*, TopologicalSort (planned), run-time replacement of slots (C07)"],
+        "assumptions": ["TemplateFix::with_transform marks exactly the given keys as transformed (Kani harness create_template under C07)"],
+    },
     "C10": {
         "units": [("source", r"position_for_offset|accept_edit"), "edit"],
         "kani": [],
